@@ -235,7 +235,7 @@ def run(ctx):
             st = storelib.StoreRun(ctx, name, dict(over, EmitSel=('"all"' if name.endswith("-x") else '"error"')),  sample=sample, select=sel).run(pool, storelib.default_violation(ctx), cov)
             kinds[name] = st["replayed"]
         if not ctx.quick():
-            storelib.design_only(ctx, "big", dict(BadMode='"all"', MaxStmts=5, MaxRows=3, MaxFlush=1, Tables='{"t1"}', Vals="{1, 9}", Wheres="{0, 1, 101}"), cov, timeout=600)
+            storelib.design_only(ctx, "big", dict(BadMode='"all"', MaxStmts=5, MaxRows=3, MaxFlush=1, Tables='{"t1"}', Vals="{1, 9}", Wheres="{0, 1, 101}"), cov, timeout=300)
     finally:
         pool.close()
     cov["failing_statements_replayed"] = sum(kinds.values())
